@@ -197,7 +197,7 @@ def run(c):
             prog["lost"] = p["lost"]
         progs.append(prog)
     progs += programs(rnd, 8 if c.quick else 150)
-    deadline = time.time() + (9 if c.quick else 200)
+    deadline = time.time() + (120 if c.quick else 600)   # safety net only: the schedule counts bound the exploration, so the result does not depend on machine load
     explored = dc.explore_into(runs, c, progs, 12 if c.quick else 150, 5 if c.quick else 40, deadline, bound=1 if c.quick else 2,
                                max_steps=1500, gap_runs=6)
     laps["explore_s"] = round(time.time() - t0 - laps["model+replay_s"], 1)
